@@ -8,17 +8,23 @@ UNITS['pow'] = dict(src=HTTP, mode='sel', roots=[POW], stubs_re=r'^_ZN8Pistache3
 _RS = '_ZN8Pistache4Http14ResponseStream'
 UNITS['rs'] = dict(src=HTTP, mode='sel', roots=[_RS + '5writeEPKcl', _RS + '5flushEv', _RS + '4endsEv'], stubs_re=r'^_ZN8Pistache3Tcp9Transport10asyncWriteI|^_ZNK8Pistache16DynamicStreamBuf6bufferEv|^_ZN8Pistache16DynamicStreamBuf5clearEv|^_ZN8Pistache4Http7Timeout6disarmEv|^_ZNK8Pistache4Http14ResponseStream4peerEv|^_ZN8Pistache5Async7PromiseIlED[02]Ev|^_ZN8Pistache9RawBufferD2Ev|^_ZN8Pistache5ErrorC[12]E|^_ZN8Pistache3Tcp9Transport5flushEv')
 HARNESSES = [dict(name='stream_chunks', units=['rs'], file='c05_stream.c', defs={'NW': 2}, unwind=5, hunwind=30, timeout=1200, fs=64,
-    bound='2 writes of 1..3 bytes, an optional flush after each, then ends(); EVERY maximum response size 0..40',
+    bound='2 writes of 0..3 bytes, an optional flush after each, then ends(); EVERY maximum response size 0..40',
     desc="(b') ResponseStream: per write <hex size> CRLF <data> CRLF, closed by 0 CRLF CRLF, all of it reaching the transport; a chunk cut short by the size limit is never followed by a successful ends()")]
 _RSCTOR = _RS + 'C2EONS0_7MessageESt8weak_ptrINS_3Tcp4PeerEEPNS5_9TransportENS0_7TimeoutEmm'
 UNITS['rsc'] = dict(src=HTTP, mode='sel', roots=[_RSCTOR], stubs_re=r'^_ZN8Pistache16DynamicStreamBufC[12]E|^_ZN8Pistache16DynamicStreamBufD[12]E|^_ZN8Pistache4Http7MessageC[12]EOS1_|^_ZN8Pistache4Http7MessageD[12]Ev|^_ZN8Pistache4Http7TimeoutC[12]EOS1_|^_ZN8Pistache4Http7TimeoutD[12]Ev|^_ZN8Pistache5ErrorC[12]E|^_ZN8Pistache4Http6CookieC2ERKS1_|^_ZN8Pistache4Http6CookieD2Ev|^_ZN8Pistache4Http6Header14EncodingHeaderC[12]E|^_ZN8Pistache4Http6Header6HeaderD2Ev')
-def rsc_inst(nh, j0, j1, tiers, witness=False):
-    return dict(name='stream_head_h%d_j%d%d' % (nh, j0, j1), units=['rsc'], file='c05_streamctor.c', defs={'NHDRFIX': nh, 'JAR0': j0, 'JAR1': j1, 'VP_DISPATCH_ru8p_u8p': None, 'VP_DISPATCH_CUSTOM_ru8p_u8p': None, 'VP_DISPATCH_rvoid_u8p_u8p': None},
+def rsc_inst(nh, j0, j1, tiers, witness=False, te=False):
+    return dict(name='stream_head_h%d_j%d%d%s' % (nh, j0, j1, '_te' if te else ''), units=['rsc'], file='c05_streamctor.c', defs={**({'HDR_TE': 1} if te else {}), 'NHDRFIX': nh, 'JAR0': j0, 'JAR1': j1, 'VP_DISPATCH_ru8p_u8p': None, 'VP_DISPATCH_CUSTOM_ru8p_u8p': None, 'VP_DISPATCH_rvoid_u8p_u8p': None},
         unwind=5, hunwind=50, timeout=1500, fs=64, tiers=tiers, witness=witness,
         bound='%d typed headers, cookie jar with %s; any version/status code, opaque pieces of arbitrary fixed lengths, EVERY maximum response size 0..200' % (nh, 'no cookie' if not j0 else ('one name with %d value(s)' % j0 if not j1 else 'two names with %d and %d value(s)' % (j0, j1))),
         desc="(b'') ResponseStream constructor: the head of a streamed response is exactly status line, each cookie once, each header once, Transfer-Encoding: chunked, blank line when it fits; if any piece does not fit the constructor throws (no cut head is left in the buffer for a later flush)")
 for (nh_, j0_, j1_) in ((0, 0, 0), (1, 1, 0), (2, 2, 1), (1, 1, 2), (2, 0, 0), (0, 2, 2)):
     HARNESSES.append(rsc_inst(nh_, j0_, j1_, ('quick', 'thorough') if (nh_, j0_, j1_) in ((1, 1, 0), (2, 0, 0)) else ('thorough',), witness=(nh_, j0_, j1_) == (1, 1, 0)))
+HARNESSES.append(rsc_inst(2, 0, 0, ('quick', 'thorough'), te=True))   # one of the handler's headers is itself a Transfer-Encoding header
+UNITS['rsi'] = dict(src='harness/w_c05_ins.cc', mode='sel', roots=['c05_ins_int', 'c05_ins_uint', 'c05_ins_short', 'c05_ins_long', 'c05_ins_cstr', 'c05_ins_u8'])
+for (n_, t_, rng_) in (('short', 3, 'every int16_t value'), ('int', 1, 'every int value'), ('uint', 2, 'every unsigned value'), ('long', 4, 'every int64_t value'), ('u8', 6, 'every uint8_t value'), ('cstr', 5, 'every C string of 0..3 bytes')):
+    HARNESSES.append(dict(name='stream_insert_' + n_, units=['rsi'], file='c05_insert.c', defs={'TY': t_}, unwind=22, hunwind=24, timeout=600, fs=64, witness=n_ in ('int', 'cstr'),
+        bound='one insertion, %s, EVERY maximum response size 0..40' % rng_,
+        desc="(b3) ResponseStream << value (template of http.h instantiated by harness/w_c05_ins.cc): one chunk whose size line announces exactly the number of bytes the value is written with, the value in decimal, nothing for an empty text, a throw iff a piece did not fit"))
 def pow_inst(nh, j0, j1, tiers, witness=False):
     return dict(name='put_on_wire_h%d_j%d%d' % (nh, j0, j1), units=['pow'], file='c05_wire.c', defs={'NHDRFIX': nh, 'JAR0': j0, 'JAR1': j1, 'VP_DISPATCH_ru8p_u8p': None, 'VP_DISPATCH_CUSTOM_ru8p_u8p': None, 'VP_DISPATCH_rvoid_u8p_u8p': None},
         unwind=5, hunwind=50, timeout=1500, fs=64, tiers=tiers, witness=witness,
@@ -37,7 +43,8 @@ for s0 in (0, 1, 3):
                 tiers=('quick', 'thorough') if quick else ('thorough',), witness=(l1 == 3 and mx in (5, 8)),
                 bound='initial size %d, maximum %d, writes of %d then %d bytes (all contents)' % (s0, mx, l1, l2),
                 desc='(a) DynamicStreamBuf: accepted == min(len, max - used), contents exact across growth boundaries, never beyond max, clear() rewinds'))
-ASSUMPTIONS = ['stream_head: same ostream token model as put_on_wire; DynamicStreamBuf construction records the maximum, Message/Timeout/weak_ptr moves and the EncodingHeader constructor are field-copy stubs',
+ASSUMPTIONS = ['stream_insert: numeric insertion is a token whose byte length is what std::ostream writes the number with in the classic locale (decimal digits plus sign, or the hex digits of its two-complement while std::hex is in force on that ostream object; no width, showbase or grouping); an unsigned char is one character',
+               'stream_head: same ostream token model as put_on_wire; DynamicStreamBuf construction records the maximum, Message/Timeout/weak_ptr moves and the EncodingHeader constructor are field-copy stubs',
                'put_on_wire: std::ostream objects are ghost token logs over one byte counter with a symbolic capacity (an insertion that does not fit is cut and fails THAT ostream); Header::write, Cookie output, version/status texts and the Content-Length digits are opaque tokens of arbitrary fixed lengths; Transport::asyncWrite, Promise::then/rejected, peer(), Timeout::disarm, DynamicStreamBuf::buffer are recording stubs; the real CookieJar::iterator runs on ghost unordered_maps',
                'writes are byte-wise puts: store into the put area or call the real overflow() when it is full (what sputc does; xsputn bulk copies are libstdc++)',
                'heap blocks are fixed-size (16 bytes, requests asserted to fit): sizes are checked functionally (storage size, put pointer, contents), not by CBMC bounds checks',
